@@ -60,7 +60,10 @@ Next == Add1 \/ Add2
 Spec == Init /\ [][Next]_vars
 
 ---------------------------------------------------------------------------
-ConnAt(bs, a) == LET i == CHOOSE i \in DOMAIN bs : bs[i].lo <= a /\ a <= bs[i].hi IN bs[i].c
+(* (total: an address no range covers has no connection - only a damaged trace can contain such a side) *)
+ConnAt(bs, a) == IF \E i \in DOMAIN bs : bs[i].lo <= a /\ a <= bs[i].hi
+                 THEN LET i == CHOOSE i \in DOMAIN bs : bs[i].lo <= a /\ a <= bs[i].hi IN bs[i].c
+                 ELSE None
 
 (* Refine *)
 Cuts == {b1[i].lo : i \in DOMAIN b1} \cup {b2[i].lo : i \in DOMAIN b2}
